@@ -169,13 +169,13 @@ func c14Build(shape, position, custom string) *c14World {
 	}
 	switch position {
 	case "first-of-two":
-		w.f.Get("/", w.handler(shape), next)
+		w.f.Routes("/", "GET,HEAD", w.handler(shape), next)
 	case "last":
-		w.f.Get("/", func() {}, w.handler(shape))
+		w.f.Routes("/", "GET,HEAD", func() {}, w.handler(shape))
 		w.f.Action(next) // the action tells us whether the chain went on
 	case "middleware":
 		w.f.Use(w.handler(shape))
-		w.f.Get("/", next)
+		w.f.Routes("/", "GET,HEAD", next)
 	}
 	if custom == "app-late" {
 		// the custom return handler is mapped on the application only after requests have been served
@@ -346,13 +346,25 @@ func c14Shrink(shape, pos, custom string, vals []c14Vals, vi int) c14Case {
 }
 
 func c14Eval(w *c14World, shape string, v c14Vals) (bad, kind string, defined bool) {
+	bad, kind, defined = c14EvalM(w, shape, v, "GET")
+	if bad == "" && defined && w.custom == "" {
+		// the table does not depend on the request method: the same values for a HEAD request (the body is
+		// not forwarded then; status and whether the chain goes on are as for GET)
+		if b, k, _ := c14EvalM(w, shape, v, "HEAD"); b != "" {
+			return "HEAD request: " + b, k + "/HEAD", true
+		}
+	}
+	return bad, kind, defined
+}
+
+func c14EvalM(w *c14World, shape string, v c14Vals, method string) (bad, kind string, defined bool) {
 	w.v = v
 	w.nextRan, w.customN, w.customV = false, 0, nil
 	spy := &c01Spy{hdr: http.Header{}}
 	var pan interface{}
 	func() {
 		defer func() { pan = recover() }()
-		w.f.ServeHTTP(spy, newReq("GET", "/"))
+		w.f.ServeHTTP(spy, newReq(method, "/"))
 	}()
 	if pan != nil {
 		return fmt.Sprintf("ServeHTTP panicked: %v", pan), "panic", true
@@ -375,6 +387,9 @@ func c14Eval(w *c14World, shape string, v c14Vals) (bad, kind string, defined bo
 	want := c14Table(shape, v, w.err(), w.bytes())
 	if !want.Defined {
 		return "", "", false
+	}
+	if method == "HEAD" {
+		want.Body = ""
 	}
 	if want.Wrote {
 		if w.nextRan {
